@@ -449,6 +449,60 @@ impl<'a> Full<'a> {
         }
     }
 
+    /// collect with MORE THAN N items but at most N distinct keys: repeats only replace values of keys that
+    /// are already present, which must succeed however full the container is
+    pub fn collect_fits<F: Fam, const N: usize>(&mut self, hist: u64) {
+        if N == 0 {
+            return;
+        }
+        let mut rng: Rng = self.cx.hist_rng(hist * 1000 + 950 + N as u64);
+        ledger::reset();
+        self.case_no += 1;
+        let mut classes: Vec<u32> = (1..=N as u32).collect();
+        rng.shuffle(&mut classes);
+        let mut seq: Vec<u32> = classes.clone();
+        for _ in 0..(1 + rng.usize_below(N + 2)) {
+            seq.insert(rng.usize_below(seq.len() + 1).max(1), classes[rng.usize_below(N)]);
+        }
+        for (name, is_set) in [("Map::from_iter(repeats beyond N)", false), ("Set::from_iter(repeats beyond N)", true)] {
+            ledger::set_ctx(self.case_no, 0, name);
+            self.cx.rep.evaluations += 1;
+            self.cx.rep.hit(&format!("{}:N={}", name, if N >= 8 { "8+".to_string() } else { N.to_string() }));
+            let (r, len) = if is_set {
+                let items: Vec<F::K> = seq.iter().enumerate().map(|(i, c)| F::K::mk(*c, i as u32)).collect();
+                let mut len = 0;
+                let r = fault::catch(|| {
+                    let s: Set<F::K, N> = items.into_iter().collect();
+                    len = s.len();
+                });
+                (r, len)
+            } else {
+                let items: Vec<(F::K, F::V)> = seq.iter().enumerate().map(|(i, c)| (F::K::mk(*c, i as u32), F::V::mk(i as u32))).collect();
+                let mut len = 0;
+                let r = fault::catch(|| {
+                    let m: Map<F::K, F::V, N> = items.into_iter().collect();
+                    len = m.len();
+                });
+                (r, len)
+            };
+            match r {
+                Caught::Ok(()) => {
+                    if len != N {
+                        v("contents-changed", format!("{} with N={} and item classes {:?} built {} entries instead of {}", name, N, seq, len, N));
+                    }
+                }
+                Caught::Panic(msg) => v("replace-on-full-panics", format!("{} with N={} and item classes {:?} ({} items, {} distinct keys) panicked ({}) although every item beyond the first N distinct ones only replaces a present key", name, N, seq, seq.len(), N, msg)),
+                Caught::Injected(..) => unreachable!(),
+            }
+            if F::TRACKED && ledger::alive_count() != 0 {
+                v("leak@drop", format!("{} N={} items {:?}: {} objects alive after everything was dropped", name, N, seq, ledger::alive_count()));
+            }
+            if ledger::viol_total() > 0 {
+                self.cx.rep.absorb_violations("C03", &|| vec![format!("{} N={} items {:?}", name, N, seq)]);
+            }
+        }
+    }
+
     /// zero-sized key and value: capacity is enforced by N alone
     pub fn zst<const N: usize>(&mut self) {
         self.case_no += 1;
